@@ -15,11 +15,17 @@ pub struct Ctx {
     pub out: String,
     pub blooms: HashMap<String, pearl::Bloom>,
     pub raws: HashMap<String, Option<Vec<u8>>>,
+    pub live: Option<std::fs::File>,
 }
 
 impl Ctx {
     pub fn emit(&mut self, s: impl AsRef<str>) {
         let _ = writeln!(self.out, "{}", s.as_ref());
+        if let Some(f) = self.live.as_mut() {
+            use std::io::Write as _;
+            let _ = writeln!(f, "{}", s.as_ref());
+            let _ = f.flush();
+        }
     }
 }
 
@@ -36,6 +42,8 @@ fn key_size_of(script: &str) -> usize {
     }
     4
 }
+
+pub static LIVE_PATH: std::sync::Mutex<Option<String>> = std::sync::Mutex::new(None);
 
 fn run_one(script: &str) -> String {
     let k = key_size_of(script);
@@ -60,6 +68,9 @@ fn main() {
     std::panic::set_hook(Box::new(|_| {}));
     while i + 1 < args.len() {
         let script = std::fs::read_to_string(&args[i]).expect("read script");
+        if std::env::var("VERIF_LIVE").is_ok() {
+            *LIVE_PATH.lock().unwrap() = Some(format!("{}.live", args[i + 1]));
+        }
         let out = run_one(&script);
         std::fs::write(&args[i + 1], out).expect("write out");
         i += 2;
